@@ -69,6 +69,9 @@ EXPR_Q = R("expr_q", "expr_q.cfg", expect_ops=["expression", "request", "respons
 
 OBS_Q3 = R("obscure_q3", "obscure_q3.cfg", expect_ops=["compress_subject", "uncompress_subject", "encrypt_subject", "decrypt_subject", "replace_subject"])
 
+DEEP_S = R("deep_s", "deep_s.cfg", rounds=1, simulate="num=25", depth=10, workers=4, expect_ops=["add_salt", "add_signature", "elide_set", "encrypt_subject", "compress_subject"])
+DEEP_S_T = dict(DEEP_S, name="deep_s_t", simulate="num=400", rounds=2)
+
 PLAN = {
     "C01": dict(
         rule="every transition TLC explores in the bounded machine (all call sequences up to the depth bound over the listed action families, 2 registers, atoms a1,a2 + known value 1, plus every clear shape of <= 5 elements as input to the obscuring calls) is executed against the real library in several concretisation rounds (atoms -> typed values of every leaf CBOR type); the digest of the result and of every element of it must equal SHA-256 evaluated from the specification's digest term. non-trivial = distinct (call, expected result) pairs whose result has >= 2 elements or is an error",
@@ -85,8 +88,8 @@ PLAN = {
     ),
     "C04": dict(
         rule="all mutating action families from the empty register file, depth <= 3 (all families) and <= 4 (construct/assertions/wrap); serialized bytes of every result must equal the evaluated wire term whose node arrays are sorted by the real digest bytes",
-        quick=[CORE_ALL3, TWIN_Q, TRACE_WALK, TRACE_ORDER],
-        thorough=[CORE_ALL3, CORE_T, TWIN_Q, TRACE_WALK_T, TRACE_ORDER],
+        quick=[CORE_ALL3, TWIN_Q, TRACE_WALK, TRACE_ORDER, DEEP_S],
+        thorough=[CORE_ALL3, CORE_T, TWIN_Q, TRACE_WALK_T, TRACE_ORDER, DEEP_S_T],
     ),
     "C05": dict(
         rule="encode->decode (bytes, CBOR value and UR string variants) of every envelope reachable in the bounded machine; decoded projection identical and re-encoding byte-identical",
@@ -118,7 +121,7 @@ PLAN = {
     "C16": dict(
         rule="every call of every configuration runs under catch_unwind; a panic is never an allowed outcome. This check runs the query / lookup / extraction family and the transform / obscure families on every shape, node-subject nodes, decorated (assertion-on-assertion) shapes and their obscured variants",
         quick=[QUERY_Q, OBS_Q, TOTAL_Q, DECODE_Q],
-        thorough=[QUERY_Q, OBS_Q, TOTAL_Q, DECODE_Q, CORE_ALL3, SIG_Q, RECIPIENT_Q, SSKR_MIX_Q, ATTACH_Q, SALT_Q],
+        thorough=[QUERY_Q, OBS_Q, TOTAL_Q, DECODE_Q, CORE_ALL3, SIG_Q, RECIPIENT_Q, SSKR_MIX_Q, ATTACH_Q, SALT_Q, DEEP_S_T],
     ),
     "C06": dict(
         rule="wire terms: the encoding of every shape (<= 5 elements, node-subject nodes, decorated assertions, nodes with 2-3 assertions, tagged-known-value leaves) and of its obscured variants, mutated at one position (reorder / duplicate assertion elements, drop all assertions, non-assertion in an assertion slot, unknown tag, leaf<->envelope retag, legacy leaf tag, digest one byte short/long, 0- or 2-entry assertion map, encrypted/compressed without digest or with a surplus element, non-minimal head, indefinite length, float/text/negative/bool in an element position); thorough: two positions. Each evaluated to bytes and given to the real decoder; the specification's decoder says accept (and what) or reject",
